@@ -3535,7 +3535,7 @@ class Parser:
         style: str | None = (
             self._prev.text.upper() if self._match_texts(self.DESCRIBE_STYLES) else None
         )
-        if self._match(TokenType.DOT):
+        if (kind or style) and self._match(TokenType.DOT):
             style = None
             self._retreat(self._index - 2)
 
